@@ -1339,6 +1339,9 @@ class Message(ABC):
                 current[value.key] = value.value
             elif isinstance(current, list) and not isinstance(value, list):
                 current.append(value)
+            elif isinstance(current, list):
+                # A further (packed) chunk of a repeated field: concatenate.
+                current.extend(value)
             else:
                 setattr(self, field_name, value)
 
